@@ -6,12 +6,17 @@ DataDir.tla: the documented conditions (WellFormed), the documented fixes applie
 reference per utterance, carried feat_dtype / num_filts / ref_is_2d, per-tensor write-back) and the
 accumulating InfoCode; TLC checks strict <=> WellFormed, fix k <=> WellFormed(Repair), accepted fix
 leaves exactly Repair(d, k), idempotence, InfoCode = InfoDecl, for every single defect and every
-pair of defects on 5 base directories and validate/fix/validate histories.  DataDirIO.tla: sos/eos
-wrapping and stripping, utterance discovery.
+pair of defects on 5 base directories and validate/fix/validate histories - under every VIEW the
+data set handed to the validator may have of a stored reference (sos / eos around it, tokens_only):
+the repairs of the presented tensor are the presentation of the repairs of the stored one
+(RepairCommutesWithView), a tensor without a defect keeps its stored content (UndamagedUntouched).
+DataDirIO.tla: sos/eos wrapping and stripping by every route the symbols can take to the data set
+(parameter object, sos= / eos= keyword arguments, parameter object changed after construction),
+utterance discovery.
 
 spec -> code: every exported history is replayed on a real temporary directory:
-validate_spect_data_set (or the in-process get-torch-spect-data-dir-info --strict / --fix N) must
-raise ValueError exactly when the specification's pass raises; after every pass the stored tensors
+validate_spect_data_set on a SpectDataSet configured with the history's view (or, plain view, the
+in-process get-torch-spect-data-dir-info --strict / --fix N) must raise ValueError exactly when the specification's pass raises; after every pass the stored tensors
 are re-read, projected and compared (judged only after accepted passes); the statistics command is
 compared with Info on every well-formed directory; dataset[i] / write_hyp against ReadRef / WriteHyp;
 SpectDataSet.utt_ids against Discover."""
@@ -36,7 +41,22 @@ def _dataset(root, **kw):
     return DD.quiet(SpectDataSet, root, **kw)
 
 
-def run_pass(root, fix, via_cli, out_path):
+PLAIN = dict(sos=-1, eos=-1, tokens_only=False)
+
+
+def view_kwargs(view):
+    """constructor arguments of a SpectDataSet that presents references through `view`"""
+    from pydrobert.torch.data import SpectDataParams
+
+    view = view or PLAIN
+    if view == PLAIN:
+        return dict()
+    return dict(params=SpectDataParams(sos=None if view["sos"] < 0 else view["sos"],
+                                       eos=None if view["eos"] < 0 else view["eos"]),
+                tokens_only=view["tokens_only"])
+
+
+def run_pass(root, fix, via_cli, out_path, view=None):
     """-> ('ok' | 'raises' | 'exception', detail, info dict or None)"""
     from pydrobert.torch import command_line
     from pydrobert.torch.data import validate_spect_data_set
@@ -48,7 +68,7 @@ def run_pass(root, fix, via_cli, out_path):
             if rc != 0:
                 return "exception", "command returned %r" % (rc,), None
             return "ok", "", DD.parse_info(out_path)
-        DD.quiet(validate_spect_data_set, _dataset(root), None if fix < 0 else fix)
+        DD.quiet(validate_spect_data_set, _dataset(root, **view_kwargs(view)), None if fix < 0 else fix)
         return "ok", "", None
     except ValueError as ex:
         return "raises", str(ex)[:200], None
@@ -99,11 +119,42 @@ def classify_verdict(rec, p, got, via_cli=False):
     return "fix-accepts-unrepairable" if got == "ok" else "fix-rejects-repairable"
 
 
+def classify_diffs(rec, p, before, stored, via_cli):
+    """every (utterance, tensor) whose stored content differs from the specification's directory
+    after an ACCEPTED pass -> list of (kind, text), most specific kind per tensor"""
+    ha, hr = rec["hasali"], rec["hasref"]
+    want = DD.norm_dir(p["after"], ha, hr)
+    prev = DD.norm_dir(before, ha, hr)
+    viewed = DD.norm_dir([dict(u, ref=v) for u, v in zip(p["after"], p["viewed"])], ha, hr) if p.get("viewed") else None
+    out = []
+    for i, k, got, exp in DD.all_diffs(stored, want):
+        if p["fix"] < 0:
+            kind = "strict-modified-directory"
+        elif via_cli and p["fix"] == 0:
+            kind = "fix-0-skips-validation"
+        elif k == "ref" and viewed is not None and got == viewed[i]["ref"] and exp != viewed[i]["ref"]:
+            # what is on disk is what the data set PRESENTS (sos / eos rows, token column only) of the
+            # expected reference, not the reference
+            if exp == prev[i]["ref"]:
+                kind = "undamaged-reference-rewritten"    # the specification leaves this tensor alone
+            else:
+                kind = "view-persisted-by-reference-repair"
+        elif exp == prev[i].get(k):
+            kind = "undamaged-tensor-modified"
+        else:
+            kind = "repair-on-disk-differs"
+        out.append((kind, "utterance %d %s: stored %r, specification %r" % (i, k, got, exp)))
+    return out
+
+
 def replay_history(ctx, rec, root, via_cli, report=True):
     """one exported history on a real directory.  Returns number of passes judged."""
     ha, hr = rec["hasali"], rec["hasref"]
     d = rec["dir"]
     n = len(d)
+    view = rec.get("view") or PLAIN
+    if view != PLAIN:
+        via_cli = False  # the command never configures sos / eos / tokens_only
     DD.write_dir(root, d, ha, hr)
     out_path = os.path.join(os.path.dirname(root), "info.txt")
     case = dict(type="history", rec=rec, via_cli=via_cli)
@@ -117,12 +168,14 @@ def replay_history(ctx, rec, root, via_cli, report=True):
         check_info(ctx, root, rec["info0"][0], None, case, out_path)
     judged = 0
     cur = d
+    vs = "" if view == PLAIN else " through a data set with sos=%s eos=%s tokens_only=%s" % (
+        None if view["sos"] < 0 else view["sos"], None if view["eos"] < 0 else view["eos"], view["tokens_only"])
     for q, p in enumerate(rec["passes"]):
-        got, detail, info = run_pass(root, p["fix"], via_cli, out_path)
+        got, detail, info = run_pass(root, p["fix"], via_cli, out_path, view)
         judged += 1
         want = "ok" if p["ok"] else "raises"
         fixs = "None" if p["fix"] < 0 else str(p["fix"])
-        where = "pass %d (fix=%s) after defects %r" % (q + 1, fixs, [(x["u"], x["k"], x["j"]) for x in rec["defects"]])
+        where = "pass %d (fix=%s)%s after defects %r" % (q + 1, fixs, vs, [(x["u"], x["k"], x["j"]) for x in rec["defects"]])
         if got == "exception":
             kind = "fix-0-skips-validation" if (via_cli and p["fix"] == 0 and not p["ok"]) else "exception"
             ctx.violation(dict(site=I_SITE if via_cli else V_SITE, kind=kind), "%s: %s" % (where, detail), case)
@@ -132,13 +185,16 @@ def replay_history(ctx, rec, root, via_cli, report=True):
                           "%s: implementation %s, specification %s (%s)" % (where, got, want, detail), case)
             return judged
         stored = DD.norm_dir(DD.read_dir(root, n, ha, hr, cur), ha, hr)
-        diff = DD.diff_dirs(stored, DD.norm_dir(p["after"], ha, hr))
-        if diff:
+        if DD.diff_dirs(stored, DD.norm_dir(p["after"], ha, hr)):
             if p["ok"]:
-                kind = "strict-modified-directory" if p["fix"] < 0 else "repair-on-disk-differs"
-                if via_cli and p["fix"] == 0:
-                    kind = "fix-0-skips-validation"
-                ctx.violation(dict(site=I_SITE if via_cli else V_SITE, kind=kind), "%s: %s" % (where, diff), case)
+                seen = set()
+                for kind, text in classify_diffs(rec, p, cur, stored, via_cli):
+                    if kind not in seen:  # one report per clause
+                        seen.add(kind)
+                        sig = dict(site=I_SITE if via_cli else V_SITE, kind=kind)
+                        if view != PLAIN:
+                            sig["view"] = "tokens_only" if view["tokens_only"] else "sos_eos"
+                        ctx.violation(sig, "%s: %s" % (where, text), case)
             else:
                 # the property says nothing about the directory after a rejected run
                 ctx.count("informational_directory_after_rejected_run_differs_from_model")
@@ -160,12 +216,17 @@ def _tensor_to_rows(t):
     return dict(nd=t.dim(), rows=[int(x) for x in t.tolist()] if t.dim() == 1 else [[int(x) for x in r] for r in t.tolist()])
 
 
+def _sym(x):
+    return None if x < 0 else x
+
+
 def check_ref_case(ctx, r, root, use_lang):
     from pydrobert.torch.data import LangDataSet, SpectDataParams, LangDataParams
 
     c = r["c"]
-    sos = None if c["sos"] < 0 else c["sos"]
-    eos = None if c["eos"] < 0 else c["eos"]
+    sos, eos = _sym(c["sos"]), _sym(c["eos"])
+    route = c.get("route", "params")
+    g = c.get("cfg") or dict(psos=c["sos"], peos=c["eos"], ksos=-1, keos=-1, msos=c["sos"], meos=c["eos"])
     case = dict(type=r["what"], r=r, use_lang=use_lang)
     os.makedirs(os.path.join(root, "feat"), exist_ok=True)
     os.makedirs(os.path.join(root, "ref"), exist_ok=True)
@@ -174,14 +235,28 @@ def check_ref_case(ctx, r, root, use_lang):
     hyp_dir = os.path.join(root, "hyp")
     site_r = "LangDataSet.__getitem__" if use_lang else "SpectDataSet.__getitem__"
     site_w = "LangDataSet.write_hyp" if use_lang else "SpectDataSet.write_hyp"
+    how = "sos=%r eos=%r" % (sos, eos)
+    if route == "kwarg":
+        how += " given as keyword arguments"
+    elif route == "mutated":
+        how += " in params, changed to sos=%r eos=%r after the data set was built" % (_sym(g["msos"]), _sym(g["meos"]))
     try:
         if use_lang:
-            ds = DD.quiet(LangDataSet, os.path.join(root, "ref"), params=LangDataParams(sos=sos, eos=eos),
-                          tokens_only=c["tokens_only"])
+            if g["ksos"] >= 0 or g["keos"] >= 0:
+                from ..harness import MachineryError
+
+                raise MachineryError("LangDataSet has no sos= / eos= keyword arguments")
+            params = LangDataParams(sos=_sym(g["psos"]), eos=_sym(g["peos"]))
+            ds = DD.quiet(LangDataSet, os.path.join(root, "ref"), params=params, tokens_only=c["tokens_only"])
         else:
-            ds = _dataset(root, params=SpectDataParams(sos=sos, eos=eos), suppress_alis=True,
-                          tokens_only=c["tokens_only"])
+            params = SpectDataParams(sos=_sym(g["psos"]), eos=_sym(g["peos"]))
+            kw = dict((k, _sym(g["k" + k])) for k in ("sos", "eos") if g["k" + k] >= 0)
+            ds = _dataset(root, params=params, suppress_alis=True, tokens_only=c["tokens_only"], **kw)
+        if (g["msos"], g["meos"]) != (g["psos"], g["peos"]):
+            params.sos, params.eos = _sym(g["msos"]), _sym(g["meos"])
     except Exception as ex:
+        if type(ex).__name__ == "MachineryError":
+            raise
         ctx.violation(dict(site=site_r, kind="exception"), "%r: %s %r" % (c, type(ex).__name__, ex), case)
         return
     empty = len(c["rows"]) == 0
@@ -190,19 +265,26 @@ def check_ref_case(ctx, r, root, use_lang):
             item = ds[0]
         except Exception as ex:
             ctx.violation(dict(site=site_r, kind="exception-empty-transcript" if empty else "exception"),
-                          "stored %r (%d-D) sos=%r eos=%r tokens_only=%s: %s %r" % (
-                              c["rows"], c["nd"], sos, eos, c["tokens_only"], type(ex).__name__, ex), case)
+                          "stored %r (%d-D) %s tokens_only=%s: %s %r" % (
+                              c["rows"], c["nd"], how, c["tokens_only"], type(ex).__name__, ex), case)
             return
         ref = item if use_lang else item[1]
         got = _tensor_to_rows(ref)
-        if got != dict(nd=r["read"]["nd"], rows=r["read"]["rows"]):
+        # the accepted reads: the specification's (symbols as configured when the data set was built); with
+        # a parameter object changed afterwards also the one that follows the object
+        accepted = [dict(nd=x["nd"], rows=x["rows"]) for x in r.get("reads", [r["read"]])]
+        if got not in accepted:
             kind = "reference-read"
-            if sos is not None or eos is not None:
+            if sos is not None or eos is not None or route == "mutated":
                 kind = "sos-eos-missing-on-empty-transcript" if empty else "sos-eos-wrapping"
-            ctx.violation(dict(site=site_r, kind=kind),
-                          "stored %r sos=%r eos=%r tokens_only=%s: read %r, specification %r" % (
-                              c["rows"], sos, eos, c["tokens_only"], got, r["read"]), case)
+            sig = dict(site=site_r, kind=kind)
+            if route != "params":
+                sig["route"] = route
+            ctx.violation(sig, "stored %r %s tokens_only=%s: read %r, specification %r" % (
+                c["rows"], how, c["tokens_only"], got, accepted), case)
             return
+        if got != dict(nd=r["read"]["nd"], rows=r["read"]["rows"]):
+            ctx.count("informational_data_set_follows_changed_params")
         hyp = ref
     else:
         hyp = _rows_to_tensor(c["rows"], c["nd"])
@@ -213,9 +295,11 @@ def check_ref_case(ctx, r, root, use_lang):
         ctx.violation(dict(site=site_w, kind="exception"), "%r: %s %r" % (c, type(ex).__name__, ex), case)
         return
     if back["rows"] != r["written"]:
-        ctx.violation(dict(site=site_w, kind="round-trip" if r["what"] == "ref" else "sos-eos-stripping"),
-                      "hypothesis %r sos=%r eos=%r: written %r, specification %r" % (
-                          hyp.tolist(), sos, eos, back["rows"], r["written"]), case)
+        sig = dict(site=site_w, kind="round-trip" if r["what"] == "ref" else "sos-eos-stripping")
+        if route != "params":
+            sig["route"] = route
+        ctx.violation(sig, "hypothesis %r %s: written %r, specification %r" % (
+            hyp.tolist(), how, back["rows"], r["written"]), case)
 
 
 # ----------------------------------------------------------------------------- discovery
@@ -255,7 +339,7 @@ def selftest(ctx, hist):
 
     from ..harness import MachineryError
 
-    pick = next(r for r in hist if any(p["ok"] and p["fix"] >= 0 and p["after"] != r["dir"] for p in r["passes"]))
+    pick = next(r for r in hist if r.get("view", PLAIN) == PLAIN and any(p["ok"] and p["fix"] >= 0 and p["after"] != r["dir"] for p in r["passes"]))
     a = copy.deepcopy(pick)
     a["passes"][0]["ok"] = not a["passes"][0]["ok"]
     b = copy.deepcopy(pick)
@@ -280,7 +364,9 @@ def selftest(ctx, hist):
 def run(ctx):
     ctx.rule = ("every exported directory (base x single defect / pair of defects) with two seeded plans of "
                 "fix values out of the exported histories, replayed on a real directory through validate_spect_data_set or the in-process "
-                "statistics command; every reference / hypothesis case through SpectDataSet and LangDataSet; "
+                "statistics command; every (directory, view) with a view other than the plain one (data set with sos / eos, "
+                "tokens_only) with one seeded plan through validate_spect_data_set on a data set configured that way "
+                "(a seeded third, thorough: quarter, of them); every reference / hypothesis case, by every route the symbols can take (params, keyword arguments, params changed after construction), through SpectDataSet and LangDataSet; "
                 "discovery cases through SpectDataSet.utt_ids (quick: seeded sample); non-trivial = history "
                 "with at least one injected defect (resp. sos or eos set; optional sub-directory present), "
                 "distinct by directory + plan")
@@ -289,63 +375,78 @@ def run(ctx):
         "token and class ids are non-negative; sos != eos and neither occurs inside a stored transcript",
         "16-bit integer tensors are not injected (the documentation names bytes and 32-bit integers only)",
         "the directory left behind by a REJECTED fix run is modelled but not judged",
+        "a tokens_only data set does not present boundaries / dimensionality / width of a 2-D reference to the "
+        "validator: defects in them are not injected under such a view (DataDir.tla HiddenByTokensOnly)",
         "rcount_<i> with an empty segment [s, s): the documentation's sum (0 frames) and the "
         "implementation's -1 are both accepted (informational counter)",
     ]
     hist, io = DD.run_design(ctx)
+    with DD.Scratch(ctx) as scratch:
+        _replay_all(ctx, hist, io, scratch)
+
+
+def _replay_all(ctx, hist, io, scratch):
+    import shutil
+
     rng = ctx.rng
     ctx.exhaustive = True
-    root = os.path.join(ctx.subdir("hist"), "d")
+    root = os.path.join(scratch.sub("hist"), "d")
     hist.sort(key=lambda r: repr(r))
-    # every directory, two of its plans (seeded); TLC has checked all of them
-    by_dir = {}
+    # every directory, two of its plans (seeded); TLC has checked all of them.  Views other than the
+    # plain one: one plan per (directory, view) for a seeded third (thorough: quarter) of them
+    by_dir, by_view = {}, {}
     for rec in hist:
-        by_dir.setdefault(repr((rec["dir"], rec["hasali"], rec["hasref"])), []).append(rec)
+        grp = by_dir if rec["view"] == PLAIN else by_view
+        grp.setdefault(repr((rec["dir"], rec["hasali"], rec["hasref"], rec["view"])), []).append(rec)
     nall = len(hist)
     hist = []
     for k in sorted(by_dir):
         g = by_dir[k]
         hist += rng.sample(g, min(2, len(g)))
+    nplain = len(hist)
+    keys = sorted(by_view)
+    frac = 3 if ctx.quick else 4
+    keys = sorted(rng.sample(keys, (len(keys) + frac - 1) // frac))
+    for k in keys:
+        hist.append(rng.choice(by_view[k]))
     ctx.exhaustive = False
     ctx.count("histories_exported", nall)
     ctx.count("directories", len(by_dir))
+    ctx.count("directories_x_views", len(by_view))
+    ctx.count("histories_replayed_through_a_view", len(hist) - nplain)
     for i, rec in enumerate(hist):
         via_cli = rng.random() < 0.3
         replay_history(ctx, rec, root, via_cli)
-        ctx.case(key=("hist", rec["dir"], rec["hasali"], rec["hasref"], [p["fix"] for p in rec["passes"]]),
+        ctx.case(key=("hist", rec["dir"], rec["hasali"], rec["hasref"], rec["view"], [p["fix"] for p in rec["passes"]]),
                  nontrivial=len(rec["defects"]) > 0,
-                 sample=dict(defects=rec["defects"], fixes=[p["fix"] for p in rec["passes"]],
-                             outcomes=[p["ok"] for p in rec["passes"]]) if i in (300, 1100) else None)
+                 sample=dict(defects=rec["defects"], fixes=[p["fix"] for p in rec["passes"]], view=rec["view"],
+                             outcomes=[p["ok"] for p in rec["passes"]]) if i in (300, 1100, nplain + 50) else None)
         ctx.traces += 1
     selftest(ctx, hist)
-    # sos / eos
+    # sos / eos, by every route
     k = 0
     for what in ("ref", "hyp"):
         for r in sorted(io[what], key=repr):
+            c = r["c"]
             for use_lang in (False, True):
-                if use_lang and r["c"]["nd"] == 2 and not r["c"]["tokens_only"] and what == "ref" and False:
-                    continue
-                d = os.path.join(ctx.subdir("io"), "r%d" % k)
+                if use_lang and c["route"] == "kwarg":
+                    continue  # LangDataSet takes the symbols through its parameter object only
+                d = os.path.join(scratch.sub("io"), "r")
+                shutil.rmtree(d, ignore_errors=True)
                 k += 1
                 check_ref_case(ctx, r, d, use_lang)
-                c = r["c"]
-                ctx.case(key=(what, c, use_lang), nontrivial=c["sos"] >= 0 or c["eos"] >= 0,
+                ctx.case(key=(what, c, use_lang), nontrivial=c["sos"] >= 0 or c["eos"] >= 0 or c["route"] == "mutated",
                          sample=dict(kind=what, case=c, read=r.get("read"), written=r["written"])
                          if k in (101, 901) else None)
                 ctx.traces += 1
-            import shutil
-
-            shutil.rmtree(ctx.subdir("io"), ignore_errors=True)
     # discovery
     disc = sorted(io["disc"], key=repr)
     if ctx.quick:
         disc = rng.sample(disc, 2000)
         ctx.exhaustive = False
     for i, r in enumerate(disc):
-        d = os.path.join(ctx.subdir("disc"), "d%d" % (i % 50))
+        d = os.path.join(scratch.sub("disc"), "d%d" % (i % 50))
         if os.path.isdir(d):
-            import shutil
-
             shutil.rmtree(d)
         check_disc_case(ctx, r, d, rng)
         ctx.case(key=("disc", r["files"], r["fam"], r["suppress_alis"]),
